@@ -120,6 +120,8 @@ def build_config(rng, d, directed=False, tall=0):
     inv = [-9999, "NaN", 0.5, "-inf", "inf", -12345.5][int(rng.integers(0, 6))]
     if directed:
         inv = "-inf"
+    if tall:
+        inv = "NaN"  # directed constructor of the NaN class (case 1 of every command-line shard)
     for k in keys:
         if pipes.kind_of(k) == "disparity":
             params[k]["invalid_disparity"] = inv
